@@ -3,6 +3,7 @@ import Proofs.Lemmas.Attempt
 import Proofs.C15
 import Proofs.C12
 import Proofs.Lemmas.QueueM
+import Proofs.Lemmas.QueueAttempts
 /-!
 # C03 — settled recipients are never attempted again; one attempt in flight per message
 
@@ -193,6 +194,115 @@ theorem handoff_is_for_the_unsettled (hpre : (pre.map (·.1)).Nodup) (hrc : ∀ 
 theorem one_attempt_in_flight_composed (hpre : (pre.map (·.1)).Nodup) {q : QM.State} (hr : QM.Reach fb (QM.start pre rc nn) q) :
     q.s.inflight.Nodup ∧ ∀ id ∈ q.s.inflight, (∀ t, (t, id) ∉ q.s.queued) ∧ id ∉ Sched.dIds q.s :=
   C12.one_attempt_in_flight hpre (QM.reach_sched hr)
+
+theorem step_handed {q q' : State} {l : Label} (hs : step fb q l = some q') :
+    q'.handed = q.handed ∨ ∃ id rs a, q'.handed = (id, rs, a) :: q.handed := by
+  unfold step at hs
+  split at hs
+  · simp at hs
+  · cases l <;> simp only at hs <;> (repeat' split at hs) <;>
+      first
+      | (simp at hs; done)
+      | (simp only [Option.some.injEq] at hs; subst hs; first | exact Or.inl rfl | exact Or.inr ⟨_, _, _, rfl⟩)
+
+/-- **Nobody is ever attempted who was not accepted for that message** — in particular nobody a restarted queue found marked
+    delivered (`C04.restarted_queue_never_loses` starts the machine on the recipients not yet marked): in every reachable state every
+    hand-off made so far, of any message, was for recipients among those the message was accepted with. -/
+theorem handed_within_accepted (hpre : (pre.map (·.1)).Nodup) (hrc : ∀ id ∈ pre.map (·.1), (rc id).Nodup) {q : State}
+    (hr : Reach fb (start pre rc nn) q) : ∀ e ∈ q.handed, ∃ r, q.orig e.1 = some r ∧ ∀ x ∈ e.2.1, x ∈ r := by
+  induction hr with
+  | init => simp [start]
+  | @step q q' l hprev hc hs ih =>
+    have hI := reach_inv hpre hrc hprev
+    have hA := reach_A hpre hrc hprev
+    have horig : ∀ j, j ∈ q.s.known → q'.orig j = q.orig j := by
+      intro j hj
+      rcases step_orig hs with h | ⟨id', _, _, _, _, h, _, hnk, _⟩
+      · rw [h.1]
+      · have : j ≠ id' := fun e => hnk (e ▸ hj)
+        rw [h, upd_ne _ _ this]
+    intro e he
+    rcases step_handed hs with hsame | ⟨id, rs, a, hnew⟩
+    · rw [hsame] at he
+      obtain ⟨r, ho, hsub⟩ := ih e he
+      exact ⟨r, by rw [horig _ (hA.knownH e he)]; exact ho, hsub⟩
+    · rw [hnew] at he
+      simp only [List.mem_cons] at he
+      rcases he with rfl | he
+      · obtain ⟨hrs, _⟩ := handoff_is_for_the_unsettled hpre hrc hprev hc hs id rs a hnew
+        -- the new entry: its recipients are the outstanding ones, and those are among the accepted ones (the ledger)
+        have hknown' : id ∈ q'.s.known := (reach_A hpre hrc (Reach.step hprev hc hs)).knownH (id, rs, a) (by rw [hnew]; simp)
+        by_cases hst : id ∈ sIds q.s
+        · obtain ⟨r, ho⟩ := Option.isSome_iff_exists.mp (hI.led.orig id hst)
+          refine ⟨r, ?_, ?_⟩
+          · rcases step_orig hs with h | ⟨id', _, _, _, hl, _, _, _, _⟩
+            · show q'.orig id = some r
+              rw [h.1]; exact ho
+            · -- a `write` step makes no hand-off
+              exfalso
+              subst hl
+              unfold step at hs
+              split at hs
+              · simp at hs
+              · simp only at hs
+                split at hs
+                · simp only [Option.some.injEq] at hs; subst hs
+                  exact absurd hnew.symm (List.cons_ne_self _ _)
+                · simp at hs
+          · intro x hx
+            have hl : (q.delivered id).count x + ((q.failed id).map Prod.fst).count x + (outstanding q.s.rem q id).count x = r.count x :=
+              hI.led.ledger id r ho x
+            rw [← hrs] at hl
+            have : 0 < rs.count x := List.count_pos_iff.mpr hx
+            exact List.count_pos_iff.mp (by omega)
+        · -- not stored: nothing is outstanding, the hand-off is empty
+          have hmn : q.msgs id = none := msgs_none_of hI.led (v := view q.s) hst
+          have : rs = [] := by rw [hrs]; simp [outstanding, hmn]
+          subst this
+          -- a hand-off needs a stored message: this case cannot arise, but an empty list is within anything
+          unfold step at hs
+          split at hs
+          · simp at hs
+          · cases l <;> simp only at hs <;> (repeat' split at hs) <;>
+              first
+              | (simp at hs; done)
+              | (simp only [Option.some.injEq] at hs; subst hs
+                 first
+                 | exact absurd hnew.symm (List.cons_ne_self _ _)
+                 | (simp only [List.cons.injEq, Prod.mk.injEq] at hnew
+                    obtain ⟨⟨rfl, _, _⟩, _⟩ := hnew
+                    simp_all))
+      · obtain ⟨r, ho, hsub⟩ := ih e he
+        exact ⟨r, by rw [horig _ (hA.knownH e he)]; exact ho, hsub⟩
+
+/-- **After a restart nobody the storage shows as delivered is attempted again** (C03 ∘ C04): start the queue machine on what a fresh
+    `DiskStorage` recovers from any directories (`C04.loadOf`, `C04.rcptsOf`: the pickled recipients with the delivered rounds
+    replayed). In every state the restarted queue reaches, every hand-off of a recovered message is for recipients the storage still
+    listed — a recipient whose delivery was recorded before the crash is in none of them. -/
+theorem restart_never_reattempts_delivered (fs : DiskFS.FS) (ids : List Nat) (hnd : ids.Nodup) (envOf : Nat → List Nat)
+    (henv : ∀ e, (envOf e).Nodup) (id : Nat) (hid : id ∈ (C04.loadOf fs ids).map (·.1)) {q : State}
+    (hr : Reach fb (start (C04.loadOf fs ids) (C04.rcptsOf envOf fs) nn) q) :
+    ∀ e ∈ q.handed, e.1 = id → ∀ x ∈ e.2.1, x ∈ C04.rcptsOf envOf fs id := by
+  have hpre := C04.loadOf_nodup fs ids hnd
+  have hrc : ∀ i ∈ (C04.loadOf fs ids).map (·.1), (C04.rcptsOf envOf fs i).Nodup := by
+    intro i _
+    simp only [C04.rcptsOf]
+    split
+    · exact (C04.delSeq_sublist _ _).nodup (henv _)
+    · simp
+  intro e he heid x hx
+  obtain ⟨r, ho, hsub⟩ := handed_within_accepted hpre hrc hr e he
+  obtain ⟨ls, hT⟩ := hr.trace
+  have h0 : (start (C04.loadOf fs ids) (C04.rcptsOf envOf fs) nn).orig id = some (C04.rcptsOf envOf fs id) := by
+    have hc : ((C04.loadOf fs ids).map (·.1)).contains id = true := List.contains_iff_mem.mpr hid
+    show (if ((C04.loadOf fs ids).map (·.1)).contains id then some (C04.rcptsOf envOf fs id) else none) = _
+    rw [if_pos hc]
+  have horig := (orig_of_start hT (inv_start fb _ _ nn hpre hrc) h0 (Or.inl (by
+    show id ∈ sIds (start (C04.loadOf fs ids) (C04.rcptsOf envOf fs) nn).s
+    simpa [start, sIds] using hid))).1
+  rw [heid, horig] at ho
+  simp only [Option.some.injEq] at ho
+  rw [ho]; exact hsub x hx
 
 end composed
 
